@@ -246,8 +246,10 @@ HDR = [("ctx::Ctx", "Ctx", None), ("ctx::Result<()>", "Result<(), CtxError>", No
 PATHS = [("validator::v2::", "", None), ("validator::", "", None)]
 SM = "impl StateMachine"
 # W-ghost monitor: persist-before-send
+# any count: "persisted" is recorded only after a backup_state(..) whose failure is propagated with `?`; a handler that stops doing so is not a lost
+# anchor - its send-site assertion (nothing leaves the node before the state recording it is durable) is what decides it
 AFTER_BACKUP = ("self.backup_state(ctx).await.wrap(())?;",
-                "self.backup_state(ctx).await.wrap(())?; proof { self.verif_persisted = Ghost(self.snapshot()); }   /* W-ghost */")
+                "self.backup_state(ctx).await.wrap(())?; proof { self.verif_persisted = Ghost(self.snapshot()); }   /* W-ghost */", None)
 
 
 def send_monitor(n=1):
@@ -1060,7 +1062,7 @@ def build(repo):
     U.props = ["C04", "C01", "C02", "C03", "C05", "C16"]
     T.add_base_types(U)
     # R-path: the `v2::` module prefix is dropped wherever a function body carries it (after `validator::` has been dropped)
-    U.tail_subs = list(U.tail_subs) + [("v2::", "", None)]
+    U.tail_subs = list(U.tail_subs) + [("v2::", "", None), ("ctx::Error", "CtxError", None), ("ctx::Canceled", "Canceled", None)]
     Q.add_signers(U)
     Q.add_commit(U)
     Q.add_timeout(U)
